@@ -40,8 +40,10 @@ def row_facts(spec, beads_table=True):
         u = spec['units'].get(c)
         if u is None:
             continue
-        chans.append({'units': u, 'fxn': spec['beads'] in ('B1', 'B1b', 'BI2'), 'same_inst': spec['beads'] != 'BI2',
-                      'has_mef': spec['beads'] in ('B1', 'B1b') and c in ('FL1', 'FL2'), 'amp': spec['file'] not in ('lin.fcs', 'linf.fcs'), 'volt': spec['file'] not in ('volt.fcs', 'volt0.fcs')})
+        chans.append({'units': u, 'fxn': spec['beads'] in ('B1', 'B1b', 'BI2', 'BNOV'), 'same_inst': {'BI2': 'FC002'}.get(spec['beads'], 'FC001') == spec.get('iid', 'FC001'),
+                      'has_mef': spec['beads'] in ('B1', 'B1b', 'BNOV') and c in ('FL1', 'FL2'), 'amp': spec['file'] not in ('lin.fcs', 'linf.fcs'),
+                      # the sample records a voltage; the beads record another one, or none at all
+                      'volt': spec['file'] not in ('volt.fcs', 'volt0.fcs') and spec['beads'] != 'BNOV'})
     n = FILES[spec['file']]
     return {'file_found': n is not None, 'n_events': n or 0, 'beads_table': beads_table, 'gate_ok': spec['gate'] == 'ok', 'channels': chans}
 
@@ -69,15 +71,18 @@ class Setup:
         ex.write_fcs('volt.fcs', 'FC001', n=600, voltage=620, seed=seed + 21)
         ex.write_fcs('volt0.fcs', 'FC001', n=600, voltage=0, seed=seed + 25)        # a recorded voltage of zero is a voltage, and differs from the beads'
         ex.write_fcs('lin.fcs', 'FC001', n=600, voltage=450, log_fl=False, seed=seed + 22)
+        ex.write_fcs('beads_nov.fcs', 'FC001', kind='beads', n=1400, voltage=None, seed=seed + 1)      # a beads file that does not record detector voltages
         import os as _os
         _os.makedirs(_os.path.join(ex.dir, 'subdir'), exist_ok=True)
+        ex.inst['FC003'] = dict(ex.inst['FC001'])      # a second cytometer of the same model: same channel names, another instrument
         self.instruments = ex.instruments_table()
         rows = [excelgen.beads_row('B1', 'FC001', 'beads1.fcs', channels=('FL1', 'FL2'), clustering=('FL1',)),
                 excelgen.beads_row('B1b', 'FC001', 'beads1.fcs', channels=('FL1', 'FL2'), clustering=('FL1',),
                                    mef={'FL1': '400, 1400, 5000, 18000, 64000', 'FL2': 'None, 1800, 6000, 22000, 80000'}),
                 excelgen.beads_row('BNOMEF', 'FC001', 'beads1.fcs', channels=()),
                 excelgen.beads_row('BI2', 'FC002', 'beads2.fcs', channels=('GFP-A',), mef={'GFP-A': '200, 700, 2500, 9000, 32000'}),
-                excelgen.beads_row('BFAIL', 'FC001', 'missing_beads.fcs', channels=('FL1',))]
+                excelgen.beads_row('BFAIL', 'FC001', 'missing_beads.fcs', channels=('FL1',)),
+                excelgen.beads_row('BNOV', 'FC001', 'beads_nov.fcs', channels=('FL1', 'FL2'), clustering=('FL1',))]
         self.beads_table = excelgen.table(rows)
         np.random.seed(3)
         with warnings.catch_warnings():
@@ -211,6 +216,12 @@ class Prop(common.PropertyCheck):
         yield {'k': 'combo', 'no_table': True, 'rows': [dict(first, beads='BI2'), first, dict(first, units={'FL1': 'RFI', 'FL2': None, 'FL3': 'MEF'}, beads='B1b')]}
         plain = {'file': 's1.fcs', 'units': {'FL1': 'RFI', 'FL2': 'a.u.', 'FL3': 'Channel'}, 'gate': 'ok'}
         yield {'k': 'combo', 'rows': [dict(plain, beads=b) for b in ('BFAIL', 'BNOMEF', 'BI2', 'B1')] + [dict(plain, file='n380.fcs', beads='B1'), dict(plain, file='n399.fcs', beads='B1'), dict(plain, file='n400.fcs', beads='B1')]}
+        # beads whose file does not record detector voltages, samples that do: the documented voltage fault, reported in place
+        yield {'k': 'combo', 'rows': [first, dict(first, beads='BNOV'), dict(first, file='s1.fcs'), dict(first, beads='BNOV', units={'FL1': 'RFI', 'FL2': 'MEF', 'FL3': None}),
+                                      dict(first, beads='BNOV', units={'FL1': 'RFI', 'FL2': None, 'FL3': None})]}
+        # samples acquired on a second cytometer of the same model (identical channel names, another instrument ID), calibrated with the first one's beads
+        yield {'k': 'combo', 'rows': [first, dict(first, iid='FC003'), dict(first, iid='FC003', file='s1.fcs', units={'FL1': 'RFI', 'FL2': 'a.u.', 'FL3': None}),
+                                      dict(first, iid='FC003', beads='B1b', units={'FL1': None, 'FL2': 'MEF', 'FL3': None}), first]}
         # rows with several simultaneous faults: which one is reported is decided by the model's decision table
         for _ in range(self.budget(6, 80)):
             rows = []
